@@ -900,6 +900,13 @@ func (e *Env) runFrom(fr *Frame, st *State, b *ssa.BasicBlock, idx int, prev *ss
 
 // deferDroppable: a deferred closure whose body consists only of dropped (telemetry/logging) calls.
 func (e *Env) deferDroppable(c *ssa.CallCommon) bool {
+	// a deferred call of a function under a trusted contract that modifies nothing (e.g. closing a local helper
+	// object): it cannot affect the results or the modelled state of the enclosing function
+	if f := c.StaticCallee(); f != nil {
+		if ct := e.Cx.forFunc(f); ct != nil && ct.Trusted && len(ct.Modifies) == 0 && len(ct.Ensures) == 0 {
+			return true
+		}
+	}
 	var fn *ssa.Function
 	switch v := c.Value.(type) {
 	case *ssa.MakeClosure:
